@@ -93,3 +93,24 @@ func VerifSetFromFlagsModel(ids []uint64, in []bool) *SeriesIDSet {
 	}
 	return s
 }
+
+func vSetForEach(s *SeriesIDSet, f func(id uint64)) {
+	e := *vSetEntries(s)
+	for i, x := range e {
+		dup := false
+		for _, y := range e[:i] {
+			if y.in && y.id == x.id {
+				dup = true
+			}
+		}
+		if x.in && !dup {
+			f(x.id)
+		}
+	}
+}
+
+func vSetAndNot(s *SeriesIDSet, other *SeriesIDSet) *SeriesIDSet {
+	c := vSetClone(s)
+	vSetDiff(c, other)
+	return c
+}
